@@ -277,5 +277,8 @@ LEVEL_TEXT = ("Deductive: the exception clauses of the whole typing and assembly
               "error (AttributeError, KeyError, IndexError, TypeError, ZeroDivisionError) is a path proved infeasible; is_valid "
               "is shown to convert InvalidSequence into False on every path.")
 LEVEL_NOTE = ("Assumed: the `raises` behaviour of dependencies (re, Bio.Restriction, Biopython records), citation passes on "
-              "well-formed citations. Bounded part (not proved): fuzzing of all kit classes with cased IUPAC words, corruptions and "
-              "mixed assemblies.")
+              "well-formed citations; the structure contracts are stated for the supported 5' family (D-RESTR), so the deductive part is "
+              "silent on other enzymes. One recorded finding (known_findings.json): is_valid() of a generic class over a 3'-overhang "
+              "enzyme raises re.error (unbalanced structure pattern), found by the bounded sweep over every enzyme of Bio.Restriction. "
+              "Bounded part (not proved): fuzzing of all kit classes with cased IUPAC words, corruptions and mixed assemblies; generic "
+              "module / vector classes over all enzymes on two records.")
